@@ -3,7 +3,9 @@
 d=$1; id=$2; tier=${3:-quick}
 cd /repo || exit 2
 git diff --quiet || { echo "repo dirty"; exit 2; }
-trap 'cd /repo && git checkout -- . ; rm -f /verif/work/seedtest_$$.log' EXIT INT TERM
+# the evidence file of the check is saved and restored: committed evidence must come from runs on the unchanged tree
+cp /verif/evidence/$id.json /verif/work/evidence_$id.saved 2>/dev/null
+trap 'cd /repo && git checkout -- . ; rm -f /verif/work/seedtest_$$.log; [ -f /verif/work/evidence_'$id'.saved ] && mv /verif/work/evidence_'$id'.saved /verif/evidence/'$id'.json' EXIT INT TERM
 git apply "$d/patch.diff" || { echo "patch does not apply"; exit 2; }
 cd /verif && timeout ${SEEDTEST_TIMEOUT:-1500} bin/check "$id" --tier "$tier" > /verif/work/seedtest_$$.log 2>&1
 rc=$?
